@@ -54,7 +54,7 @@ PROFILES = {
                            configure=1, arm=2, quant=2, let=2, dump=1, load=2),
                 flavors=['autoref'], nv=(2, 7), steps=(20, 140), copy_copy=0.1, disk_faults=0.3,
                 line_mode=dict(quick=0.1, thorough=0.15)),
-    'C09': dict(weights=_w(apply=12, ite=4, fop=4, quant=5, let=6, cube=3,
+    'C09': dict(weights=_w(apply=12, ite=4, fop=4, quant=5, let=10, cube=3,
                            var=6, find_or_add=2, add_expr=4, drop=5, gc=1,
                            swap=0, reorder=0, pairs=0, configure=1, arm=14,
                            knobs=1, copy=3, load=1, dump=1, image=5, support=3, count=1, pick=1, to_expr=1, sizes=1),
@@ -72,10 +72,10 @@ PROFILES = {
                 m1_rate=0.3, disk_faults=0.5, real_disk=dict(quick=0.03, thorough=0.06)),
     'C13': dict(weights=_w(image=20, apply=10, pairs=4, swap=3, gc=1, reorder=0),
                 flavors=['raw', 'autoref'], nv=(2, 7), steps=(15, 70)),
-    'C14': dict(weights=_w(declare=10, undeclare=10, apply=8, drop=8, gc=6,
+    'C14': dict(weights=_w(declare=10, declare_many=3, undeclare=10, apply=8, drop=8, gc=6,
                            swap=4, reject=4, var=8),
                 flavors=['raw'], nv=(1, 6), steps=(20, 100),
-                declared0=True, reject_kinds=['level', 'undeclare']),
+                declared0=True, reject_kinds=['level', 'undeclare', 'swap_bad']),
     'C15': dict(weights=_w(mdd=30, bdd_to_mdd=3, apply=6, swap=1, gc=1, reorder=0, pairs=0),
                 flavors=['raw'], nv=(1, 6), steps=(20, 90)),
     'C16': dict(weights=_w(dddmp=10, apply=10, swap=4, declare=1, gc=1),
